@@ -110,6 +110,8 @@ pub open spec fn meta_items(d: Seq<u8>, q: int, s: u64) -> Option<Map<MetadataKe
 }
 
 /// a four-character code is determined by its numeric value
+#[verifier::spinoff_prover]
+#[verifier::rlimit(200)]
 pub proof fn lemma_fourcc_injective(f: FourCC, g: FourCC)
     requires u32_of_fourcc(f) == u32_of_fourcc(g)
     ensures f == g
